@@ -572,7 +572,7 @@ class ContentSecurityPolicySourceHost(ParsableBase, Serializable):
         return ContentSecurityPolicySourceType.HOST
 
 
-class ContentSecurityPolicySourceKeyword(StringEnumParsable, enum.Enum):
+class ContentSecurityPolicySourceKeyword(StringEnumCaseInsensitiveParsable, enum.Enum):
     NONE = FieldValueStringEnumParams(code='\'none\'')
     REPORT_SAMPLE = FieldValueStringEnumParams(code='\'report-sample\'')
     SELF = FieldValueStringEnumParams(code='\'self\'')
